@@ -23,6 +23,8 @@ structure Mon where
   begun : List (BId × EId) := []        -- activations begun, in order
   tripped : List (BId × EId) := []      -- activations that hit the recursion guard (F2)
   aborted : List (BId × EId) := []      -- inline activations that were abandoned (F5)
+  abortedForeign : List (BId × EId) := []  -- … of an event that is not a descendant of the abandoning handler's event:
+                                        -- nothing cancels its pending results (descendants are cancelled with the handler, C10)
   snaps : List (EId × List Res) := []   -- results of an event when it was first complete and signalled
   entries : List (EId × BId) := []      -- accepted dispatches that are not forwards: (event, entry bus)
   fwdRejected : Bool := false
@@ -144,6 +146,23 @@ def hangSigs (w : World) (m : Mon) (e : EId) : List String :=
   (if (events w).any (fun d => desc w d e && !(w.ev d).signal &&
         (buses w).any fun b => (w.bus b).rl == .exited && (w.bus b).queue.contains d) then ["stopped-backlog"] else [])
 
+/-- the tree of `c` still has work queued, in hand or in progress somewhere: what an awaiting handler's inline drain
+    (F0: it takes every queue's head, whatever it is) is working towards -/
+def treeOutstanding (w : World) (c : EId) : Bool :=
+  (events w).any fun d => desc w d c &&
+    ((buses w).any (fun b => (w.bus b).queue.contains d || (match (w.bus b).rl with | .took x => x == d | _ => false) ||
+        (match w.act (.rl b) with | some A => A.ev == d | none => false)) ||
+     (insts w).any (fun j => ((w.inst j).ev == d && (w.inst j).st != .finished) ||
+        (match (w.inst j).took with | some (_, x) => x == d | none => false) ||
+        (match w.act (.inst j) with | some A => A.ev == d | none => false)))
+
+/-- what can leave the tree of `e` stuck with a result that is never made terminal: an abandoned activation counts only
+    when its event is not a descendant of the abandoning handler's event (descendants have their pending results cancelled
+    together with that handler, C10) -/
+def stuckSigs (w : World) (m : Mon) (e : EId) : List String :=
+  (hangSigs w m e).filter (· != "F5") ++
+  (if m.abortedForeign.any (fun d => desc w d.2 e) then ["F5"] else [])
+
 def busHangSigs (w : World) (m : Mon) (b : BId) : List String :=
   (if m.tripped.any (fun d => d.1 == b) then ["F2"] else []) ++
   (if m.aborted.any (fun d => d.1 == b) then ["F5"] else []) ++
@@ -213,6 +232,9 @@ def Mon.step (m : Mon) (w : World) (l : Label) (w' : World) : Mon × List Vio :=
   | .peAbort p b e =>
     (match p with
      | .rl _ => ({ m with dropped := m.dropped ++ [(b, e)], ended := m.ended ++ [(b, e)] }, [])   -- run loop cancelled by stop()
+     | .inst i =>
+       ({ m with aborted := m.aborted ++ [(b, e)], ended := m.ended ++ [(b, e)],
+                 abortedForeign := if desc w e (w.inst i).ev then m.abortedForeign else m.abortedForeign ++ [(b, e)] }, [])
      | _ => ({ m with aborted := m.aborted ++ [(b, e)], ended := m.ended ++ [(b, e)] }, []))
   | .peBegin p b e =>
     ({ m with begun := m.begun ++ [(b, e)],
@@ -233,7 +255,11 @@ def Mon.step (m : Mon) (w : World) (l : Label) (w' : World) : Mon × List Vio :=
     let vs5 := (insts w').filterMap fun i =>
       if i == j || C05.allowedDuring w' i (w'.inst j).bus (w'.inst j).ev then none else
         some ({ prop := "C05", clause := "intruder",
-                sigs := (match (w'.inst j).exec with | .inst _ => ["F0"] | _ => []),
+                -- F0 explains an inline intruder only while the awaited tree still has outstanding work; a tree that is
+                -- stuck is explained by what made it stuck, if that is a recorded mechanism
+                sigs := (match (w'.inst j).exec, awaitedOf (w'.inst i).st with
+                         | .inst _, some c => if treeOutstanding w' c then ["F0"] else stuckSigs w' m c
+                         | _, _ => []),
                 detail := s!"instance {j} (event {(w'.inst j).ev}) starts while instance {i} awaits {repr (w'.inst i).st}" } : Vio)
     let vs6 := (insts w').filterMap fun i1 =>
       if i1 == j || C06.pairOk w' i1 j then none else
